@@ -5,7 +5,21 @@ HOOK_COMMITS = []
 # property id -> reason, for properties deliberately not claimed (default reason: not built yet)
 NOT_CLAIMED = {}
 
+BFV_OPS_C05 = {"wordtype", "new", "new_unaligned", "with_capacity", "raw", "from_slice", "macro_fill", "macro_list",
+               "push", "pop", "set", "aset", "get", "aget", "resize", "clear", "extend", "iter", "iter_from",
+               "unchecked_from", "rev_iter", "rev_iter_from", "eq", "clone", "swapab", "conv", "reset"}
+
 PROPS = {
+    "C05": dict(
+        lean=["SuxModel.Props.C05"],
+        runners=["bfv"],
+        ops=BFV_OPS_C05,
+        claim="Refinement theorem for every word size W > 0 and every width 0..=W: every operation history on the BitFieldVec model (word-level mirror of bit_field_vec.rs: one/two-word get/set, growth, equality, forward/reverse unchecked iterators) yields exactly the observations of a plain vector of w-bit values; index/value errors panic; no out-of-bounds access; layout lemmas getU_spec/setU_spec. Tied to the code by differential correspondence over six word types, all widths, dirty backends.",
+        note="Trusted: Lean kernel + {propext, Classical.choice, Quot.sound}; the hand-written model and the correspondence harness; From conversions modelled as identity on raw parts (validated by correspondence only); lengths far below 2^64.",
+        trusted_base=["BitFieldVec model: SuxModel/BitFieldVec/Model.lean mirrors src/bits/bit_field_vec.rs (generic W)"],
+        assumptions=["no usize overflow in len * bit_width", "allocator never fails", "extend with a non-fitting value is not generated (it panics after pushing the good prefix)"],
+        open=[],
+    ),
     "C06": dict(
         claim="Refinement theorem: every operation history on the BitVec model (word-level mirror of bit_vec.rs) yields exactly the observations of a Vec<bool>, index errors panic with state unchanged, no out-of-bounds access; lifted to all histories by induction. The model is tied to the code by differential correspondence on generated histories incl. dirty backends.",
         note="Trusted: Lean kernel + {propext, Classical.choice, Quot.sound}; the hand-written model and the correspondence harness (differential testing power); usize = 64 bits; allocator never fails.",
